@@ -169,6 +169,12 @@ def check(ctx) -> None:
     c07.rule_e6(ctx, "C04-G4")
     # G7: the composition the input check compares is defined for every element (shared with C07-E1)
     c07.rule_e1(ctx, "C04-G7")
+    # G8: ... and is computed from the whole side string, not summed over separately parsed pieces (shared with C07-E2)
+    c07.piecewise_findings(ctx, "C04-G7")
+    # G9: an input-balanced row served from the cache was computed under the settings in force (shared with C12-K1)
+    from . import c12
+
+    c12.rule_k1(ctx, "C04-G9")
     # G6: no verdict of an earlier run survives into the input check
     rule_g6(ctx, pl)
     # G5: results are written back to the row they were computed for (shared with C06-B2)
